@@ -23,7 +23,7 @@ else:
     os.makedirs('/tmp/try_verif_wt',exist_ok=True)
     subprocess.run(['cp','/verif/KNOWN_FINDINGS.txt','/tmp/try_verif_wt/'])
     for pr in props:
-        r=subprocess.run(['/verif/bin/otelcheck','-property',pr,'-tier','quick','-repo',wt,'-verif','/tmp/try_verif_wt'],capture_output=True,text=True)
+        r=subprocess.run([os.environ.get('OTELCHECK','/verif/bin/otelcheck'),'-property',pr,'-tier','quick','-repo',wt,'-verif','/tmp/try_verif_wt'],capture_output=True,text=True)
         lines=[l for l in r.stdout.splitlines() if not l.startswith(('VIOLATION','  key','KNOWN-FINDING'))]
         print(f'== {pr} exit={r.returncode}'); print('\n'.join(l[:300] for l in lines[:5]))
 subprocess.check_call(['git','-C',wt,'checkout','-q','--','.'])
